@@ -8,8 +8,10 @@
 
 #include "messagepatterns.h"
 
-namespace {
+namespace QtLogger {
 
+// Not in an unnamed namespace: in the single header the function must be the same one (with
+// the same static) in every translation unit, like its callers below.
 QTLOGGER_DECL_SPEC
 QString prevMessagePattern(const QString &messagePattern = {})
 {
@@ -20,10 +22,6 @@ QString prevMessagePattern(const QString &messagePattern = {})
 
     return __prevMessagePattern;
 }
-
-}
-
-namespace QtLogger {
 
 QTLOGGER_DECL_SPEC
 void setFilterRules(const QString &a_rules)
